@@ -136,6 +136,9 @@ class Check(PropertyCheck):
                                       f"estep {len(jobs) + rng.randint(0, 1)} -1",
                                       f"estep {rng.randrange(len(jobs))} -2"])
                     lines += ["mark injected", bad, "eobs"]
+                if rng.random() < 0.04:
+                    # the episode goes on with a deep copy of the environment (the original is reset and stepped elsewhere)
+                    lines += ["efork", "eobs"]
                 lines.append(f"eauto {rng.randint(0, 50)}")
                 steps += 1
             if rng.random() < 0.3:
@@ -196,6 +199,8 @@ class Check(PropertyCheck):
                     # an illegal decision (unknown / finished job, ineligible machine, a machine id that exists only in the
                     # padded action space): must raise and change nothing
                     lines += ["mark injected", f"mbad {rng.randint(0, 200)} {m2 + 1}"]
+                if rng.random() < 0.04:
+                    lines.append("mfork")
                 lines.append(f"mauto {rng.randint(0, 50)}")
                 steps += 1
         meta.update({"kind": "multi", "steps": steps, "recirc": rc, "may_refuse": bool(not al and j1 < m1), "multi_machine": int(k2 > 1), "allow_less": al,
